@@ -38,6 +38,9 @@ type fileCfg struct {
 	goFns  []string // T-go: enclosing function names whose go statements become threads
 	consts map[string]string
 	gates  map[string]string // function name -> gate name (T-gate)
+	// T-gate inside a function: function name -> {identifier, gate name}: the gate goes right before
+	// the statement "if <identifier> {" of that function (must exist exactly once)
+	gateBeforeIf map[string][2]string
 }
 
 type report struct {
@@ -80,7 +83,7 @@ func main() {
 		"pkg/stub/stub.go":                       {mapr: true, gates: map[string]string{"connClosed": "stub.connClosed"}},
 		"pkg/runtime-tools/generate/generate.go": {mapr: true},
 		"pkg/net/conn.go":                        {},
-		"pkg/net/multiplex/mux.go":               {mapr: true},
+		"pkg/net/multiplex/mux.go":               {mapr: true, gateBeforeIf: map[string][2]string{"reader": {"ok", "mux.queue"}}},
 		"pkg/net/multiplex/ttrpc.go":             {},
 	}
 	// T-sync is applied to the multiplexer only in the fully controlled build: in the base build
@@ -93,6 +96,8 @@ func main() {
 		cfg["pkg/net/multiplex/mux.go"].chans = true
 		cfg["pkg/net/multiplex/mux.go"].goFns = []string{"newMux"}
 		cfg["pkg/net/multiplex/ttrpc.go"].consts = map[string]string{"ttrpcMessageLengthMax": "6"}
+		// the default read queue length is shrunk too (a configured length of 8 is then LONGER than the default)
+		cfg["pkg/net/multiplex/mux.go"].consts = map[string]string{"readQueueLen": "4"}
 	}
 
 	pkgs, err := packages.Load(&packages.Config{
@@ -207,6 +212,37 @@ func (in *inst) run() {
 				recv = ast.NewIdent(fd.Recv.List[0].Names[0].Name)
 			}
 			fd.Body.List = append([]ast.Stmt{&ast.ExprStmt{X: vs("Gate", &ast.BasicLit{Kind: token.STRING, Value: strconv.Quote(g)}, recv)}}, fd.Body.List...)
+			in.needVs = true
+			count(in.rel, "T-gate")
+		}
+		if g, ok := in.cfg.gateBeforeIf[fd.Name.Name]; ok {
+			var recv ast.Expr = ast.NewIdent("nil")
+			if fd.Recv != nil && len(fd.Recv.List) == 1 && len(fd.Recv.List[0].Names) == 1 {
+				recv = ast.NewIdent(fd.Recv.List[0].Names[0].Name)
+			}
+			n := 0
+			ast.Inspect(fd.Body, func(x ast.Node) bool {
+				b, ok := x.(*ast.BlockStmt)
+				if !ok {
+					return true
+				}
+				for i := 0; i < len(b.List); i++ {
+					ifs, ok := b.List[i].(*ast.IfStmt)
+					if !ok || ifs.Init != nil {
+						continue
+					}
+					if id, ok := ifs.Cond.(*ast.Ident); ok && id.Name == g[0] {
+						gate := &ast.ExprStmt{X: vs("Gate", &ast.BasicLit{Kind: token.STRING, Value: strconv.Quote(g[1])}, recv)}
+						b.List = append(b.List[:i], append([]ast.Stmt{gate}, b.List[i:]...)...)
+						i++
+						n++
+					}
+				}
+				return true
+			})
+			if n != 1 {
+				fatal(fmt.Errorf("%s: T-gate %s: expected exactly one 'if %s {' in %s, found %d", in.rel, g[1], g[0], fd.Name.Name, n))
+			}
 			in.needVs = true
 			count(in.rel, "T-gate")
 		}
@@ -386,6 +422,21 @@ func (in *inst) stmt(s ast.Stmt) []ast.Stmt {
 		}
 	case *ast.DeferStmt:
 		in.funcLits(x.Call)
+		if in.cfg.chans {
+			if id, ok := x.Call.Fun.(*ast.Ident); ok && id.Name == "close" && len(x.Call.Args) == 1 {
+				// defer close(ch)  =>  defer func() { vsched.BeforeClose(ch); close(ch) }()
+				ch := x.Call.Args[0]
+				if !simpleExpr(ch) {
+					fatal(fmt.Errorf("%s: channel expression too complex to instrument", in.pos(s)))
+				}
+				in.needVs = true
+				count(in.rel, "T-chan")
+				markHandled(x.Call)
+				body := &ast.BlockStmt{List: []ast.Stmt{&ast.ExprStmt{X: vs("BeforeClose", ch)}, &ast.ExprStmt{X: x.Call}}}
+				x.Call = &ast.CallExpr{Fun: &ast.FuncLit{Type: &ast.FuncType{Params: &ast.FieldList{}}, Body: body}}
+				return []ast.Stmt{x}
+			}
+		}
 	case *ast.ExprStmt:
 		in.funcLits(x.X)
 		if in.cfg.chans {
